@@ -150,6 +150,13 @@ pub trait SmartPtrSerialize<T> {
     }
 }
 
+/// Largest number of elements a container reserves up front on the word of a length prefix.
+///
+/// The prefix comes from the (untrusted) input and a `DataInput` does not know how many bytes
+/// remain, so deserializers reserve at most this many elements and then grow as elements are
+/// actually decoded; a corrupt prefix then ends in an end-of-data error, not a huge allocation.
+pub(crate) const MAX_PREALLOC_ELEMENTS: usize = 4096;
+
 /// Marker trait for types that are serializable
 pub trait SerializableType {
     fn serialize<O: DataOutput>(&self, output: &mut O) -> Result<()>;
@@ -551,7 +558,7 @@ impl<T: SerializableType> SerializableType for Vec<T> {
     
     fn deserialize<I: DataInput>(input: &mut I) -> Result<Self> {
         let len = input.read_u32()? as usize;
-        let mut vec = Vec::with_capacity(len);
+        let mut vec = Vec::with_capacity(len.min(MAX_PREALLOC_ELEMENTS));
         for _ in 0..len {
             vec.push(T::deserialize(input)?);
         }
